@@ -204,6 +204,8 @@ func generate(tier string, seed uint64) []string {
 				{"I", "S1", "S2", "C", "?", "e0", "d0", "d1"},
 				{"I", "S1", "X1", "X1", "e0", "d0"},
 				{"I", "S1", "X2", "e0", "d0"},
+				{"I", "S1", "X1", "S1", "e0", "e1", "d0", "d1"},
+				{"I", "S1", "e0", "X1~", "S1~", "e0~", "e1", "d1", "d0"},
 				// burst without any settle
 				{"I~", "S1~", "S2~", "X1~", "e0~", "e1~", "T~"},
 				{"I~", "S1~", "S1~", "S1~"},
